@@ -51,6 +51,19 @@ PROPS["C06"] = {
     "release_too": True,
 }
 
+PROPS["C11"] = {
+    "level": "proof",
+    "technique": "Lean 4: butterfly network = evaluation at roots of X^n+1 (any commutative ring, induction on depth), instantiated at ZMod 12289 with table obligations discharged by kernel evaluation over the tables re-extracted from fast_fft.rs; model tied to the in-place Rust loops on all unit vectors of every length",
+    "rule": "ops = for every n = 1..1024: forward and inverse transform of every unit vector (pins the linear maps), random / sparse / extreme-coefficient pairs for intt(ntt(a)) = a and intt(ntt(a).*ntt(b)) vs the harness's schoolbook negacyclic product, monomial pairs X^i*X^j that wrap with a sign; an unsupported length (panic arm); distinct by op line; non-trivial = ops on which the property's predicate (round trip / product vs schoolbook) was evaluated",
+    "exhaustive": {"quick": (False, "bases of the linear maps enumerated (all unit vectors, every n); products sampled"), "thorough": (False, "same, more products")},
+    "level_text": "Machine-checked for all n = 2^d <= 1024 and all canonical a, b: intt(ntt a) = a and intt(ntt a .* ntt b) = a*b in Z_q[X]/(X^n+1); the tables are the bit-reversed powers of psi = table[512] with psi^1024 = -1 and psi*psi^-1 = 1 (verbatim), every n^-1 constant is correct and selected by its own arm. A changed table entry or constant breaks a kernel-checked obligation on the regenerated data. The depth-first model is tied to the in-place breadth-first Rust loops by execution on a basis for every length.",
+    "level_note": "Trusted: Lean kernel (+ Mathlib's ZMod/ring tactics, axioms propext/Classical.choice/Quot.sound); translator for the tables; equality of the recursive model with the iterative Rust loop nest is checked on all unit vectors of every length on every run (both are linear maps, so this is complete up to linearity of the Rust code, which is not proved).",
+    "trusted_base": TB_COMMON,
+    "assumptions": ["coefficients are canonical (C12)", "the Rust loop nest is the linear map its values on the unit vectors determine"],
+    "not_proved": [],
+    "release_too": False,
+}
+
 # properties not (yet) claimed, with the reason shown in MANIFEST.not_applicable
 NOT_YET = {k: "check not built yet in this session (planned in DESIGN.md §7/§8); not claimed until its check passes" for k in
-           ["C01", "C02", "C03", "C04", "C05", "C08", "C09", "C10", "C11", "C13", "C14", "C15", "C16", "C17"]}
+           ["C01", "C02", "C03", "C04", "C05", "C08", "C09", "C10", "C13", "C14", "C15", "C16", "C17"]}
